@@ -613,6 +613,8 @@ def uw_model(stack):
 def uw_probe(ureg, *ctx, inplace=False):
     Q = ureg.Quantity
     out = {}
+    # a listing asked first, inside the same activation: a question, it changes no later conversion
+    call(lambda: (Q(1, "ua").compatible_units(), ureg.get_compatible_units("ub"), Q(1, "ua").is_compatible_with("uc")))
     for name, (a, b) in {"ua->ub": ("ua", "ub"), "ub->uc": ("ub", "uc"), "ua->uc": ("ua", "uc"), "foot->ua": ("foot", "ua")}.items():
         o = call((lambda: (lambda q: (q.ito(b, *ctx), q.magnitude)[1])(Q(1, a))) if inplace else (lambda: Q(1, a).to(b, *ctx).magnitude))
         out[name] = o[1] if o[0] == "ok" else (None if o[1] == "DimensionalityError" else o[1])
